@@ -314,7 +314,14 @@ func TestLedgerConservation(t *testing.T) {
 						}
 					}
 				}
-				blockgen.ExtraTargets = contracts
+				// plain transfers may name deployed contracts, except those that burn their balance (SELFDESTRUCT
+				// naming themselves): the bound on burns below is what those held when the block started
+				blockgen.ExtraTargets = nil
+				for _, c := range contracts {
+					if !selfDestructors[strings.ToLower(c)] {
+						blockgen.ExtraTargets = append(blockgen.ExtraTargets, c)
+					}
+				}
 				n := rapid.IntRange(1, 8).Draw(t, "nTx")
 				for i := 0; i < n; i++ {
 					src := rapid.IntRange(0, 3).Draw(t, "src")
